@@ -15,6 +15,9 @@ import (
 func init() {
 	f := "internal/native/wat2x64/func.go"
 	register(&Property{ID: "C02", Run: runC02, Mutants: []Mutant{
+		{Name: "x64 data strings keep a raw backslash", File: "internal/native/wat2x64/utils.go", Old: "if b >= 32 && b <= 126 && b != '\"' && b != '\\\\' {", New: "if b >= 32 && b <= 126 && b != '\"' && b != '/' {", Expect: "gas-string-literal"},
+		{Name: "riscv data strings escape with a variable number of octal digits", File: "internal/native/wat2rv/utils.go", Old: "fmt.Sprintf(\"\\\\%03o\", b)", New: "fmt.Sprintf(\"\\\\%o\", b)", Expect: "gas-string-literal"},
+		{Name: "indirect calls record the caller's argument area", File: "internal/native/wat2x64/func.go", Old: "\t\t\tp.fnMaxCallArgsSize = fnCallNative.ArgsSize", New: "\t\t\tp.fnMaxCallArgsSize = fnNative.ArgsSize", Nth: 1, Expect: "running-maximum"},
 		{Name: "f64.le loses its NaN guard", File: "internal/native/wat2x64/func.go", Old: "\t\tfmt.Fprintf(w, \"    setbe   al\\n\")\n\t\tfmt.Fprintf(w, \"    setnp   cl # set if not NaN\\n\")\n\t\tfmt.Fprintf(w, \"    and     al, cl\\n\")", New: "\t\tfmt.Fprintf(w, \"    setbe   al\\n\")", Nth: 1, Expect: "float-compare-truth-table :: f64.le"},
 		{Name: "f32.ne is false on NaN", File: "internal/native/wat2x64/func.go", Old: "\t\tfmt.Fprintf(w, \"    setne   al\\n\")\n\t\tfmt.Fprintf(w, \"    setp    cl # set if NaN\\n\")\n\t\tfmt.Fprintf(w, \"    or      al, cl\\n\")", New: "\t\tfmt.Fprintf(w, \"    setne   al\\n\")", Expect: "float-compare-truth-table :: f32.ne"},
 		{Name: "linux memmove helper copies in the wrong direction", File: "internal/native/wat2x64/assets/native-env-linux-x64.s", Old: "    cmp rdi, rsi ", New: "    cmp rsi, rdi ", Expect: "memmove-direction :: internal/native/wat2x64/assets/native-env-linux-x64.s"},
@@ -301,6 +304,8 @@ func runC02(c *Ctx) {
 		return
 	}
 	c02FloatCompare(c, p, x64)
+	c02GasString(c, p)
+	c02RunningMax(c, p)
 	c02Memmove(c)
 	// sibling agreement
 	var names []string
